@@ -87,22 +87,37 @@ class Explorer:
         return code, out, err, pts, status
 
 
+_REF_CACHE = {}
+_REF_LOCK = __import__("threading").Lock()
+
+
 def reference(binary, root, files, faults, style, tag="x"):
-    """union of the single-file, single-thread runs (un-hooked scheduling: VERIF_THREADS unset)"""
-    recs = []
-    any_error = False
-    for name in sorted(files):
+    """union of the single-file, single-thread runs (un-hooked scheduling: VERIF_THREADS unset).
+    Single-file results are cached by (name, content, faulted?, style) and computed in parallel."""
+    def one(name):
+        key = (name, files[name], name in faults, style)
+        with _REF_LOCK:
+            if key in _REF_CACHE:
+                return _REF_CACHE[key]
         d = os.path.join(root, f"ref_{tag}_" + name.replace(".", "_"))
         os.makedirs(d, exist_ok=True)
         vlib.write_tree(d, {name: files[name], "r.yml": rules_text()})
         env = {"VERIF_FAULTS": ",".join(faults)}
         code, out, err = vlib.run_cli(binary, ["scan", "-r", "r.yml", f"--json={style}", "-j", "1", name], d, extra_env=env)
         if vlib.is_crash(code, err):
-            return None, f"reference run crashed on {name}: {err[-300:]!r}"
-        rs = parse_json(style, out)
-        recs.extend(rs)
-        if any(r.get("severity") == "error" for r in rs):
-            any_error = True
+            res = ("crash", f"reference run crashed on {name}: {err[-300:]!r}")
+        else:
+            res = ("ok", parse_json(style, out))
+        with _REF_LOCK:
+            _REF_CACHE[key] = res
+        return res
+    results = vlib.pmap(one, sorted(files), workers=16)
+    recs = []
+    for kind, val in results:
+        if kind == "crash":
+            return None, val
+        recs.extend(val)
+    any_error = any(r.get("severity") == "error" for r in recs)
     return (sorted(rec_key(r) for r in recs), 1 if any_error else 0), None
 
 
@@ -117,7 +132,7 @@ def explore_config(ex, files, faults, T, style, bound, update_all=False, idx=0, 
     tree = dict(files)
     tree["r.yml"] = rules_text().encode()
     vlib.write_tree(proj, tree)
-    case_base = {"files": {k: v.decode("latin-1") for k, v in files.items()}, "faults": sorted(faults), "threads": T, "style": style, "update_all": update_all}
+    case_base = {"files": ({k: v.decode("latin-1") for k, v in files.items()} if len(files) < 20 else {"<burst>": f"{len(files)} files m%04d.js = foo(i)"}), "faults": sorted(faults), "threads": T, "style": style, "update_all": update_all}
     if update_all:
         argv = ["scan", "-r", "r.yml", "-U", "."]
         want = None
@@ -304,6 +319,17 @@ def main(argv):
         configs.append((base_files, [], 2, "stream", 2, True))
         configs.append((base_files, [], 3, "stream", 1, True))
 
+    # burst configurations: many one-match files, so that in the schedules where the producers run
+    # ahead of the printer (the default schedule keeps the running participant running) thousands of
+    # items are in flight before the first recv — queue-capacity / back-pressure bugs need that
+    n_burst = 3000 if thorough else 1500
+    burst_names = []
+    for i in range(n_burst):
+        nm = f"m{i:04d}.js"
+        FILES[nm] = f"foo({i})\n".encode()
+        burst_names.append(nm)
+    for T in ([1, 2, 3] if thorough else [1, 2]):
+        configs.append((burst_names, [], T, "stream", 0, False))
     import concurrent.futures
     results = []
     with concurrent.futures.ThreadPoolExecutor(max_workers=16) as pool:
@@ -319,12 +345,12 @@ def main(argv):
     distinct_orders = set()
     for cfg, n, outcomes, sub in results:
         names, faults, T, style, bound, upd = cfg
-        per_cfg.append({"files": names, "faults": faults, "threads": T, "style": style, "preemption_bound_completed": bound, "update_all": upd, "schedules": n, "distinct_record_orders_or_outcomes": outcomes, "max_schedule_points": sub.max_points})
+        per_cfg.append({"files": names if len(names) < 20 else f"{len(names)} one-match files m0000.js ..", "faults": faults, "threads": T, "style": style, "preemption_bound_completed": bound, "update_all": upd, "schedules": n, "distinct_record_orders_or_outcomes": outcomes, "max_schedule_points": sub.max_points})
         overtakes += sub.schedules_with_overtake
         for (tag, order) in sub.orders:
             distinct_orders.add((tag, order))
     plain = vlib.build_cli(hooks=False)
-    supp, diffs = supplementary(rep, {k: FILES[k] for k in FILES}, plain, root)
+    supp, diffs = supplementary(rep, {k: FILES[k] for k in FILES if not k.startswith("m")}, plain, root)
     if diffs:
         rep.violation("free-running:output-differs-between-thread-counts", {"detail": supp})
     samples = [{"files": c["files"], "threads": c["threads"], "style": c["style"], "bound": c["preemption_bound_completed"], "schedules": c["schedules"]} for c in per_cfg[:4]]
